@@ -6,4 +6,4 @@ retract v0.45.0 // Due to bug: https://github.com/peterstace/simplefeatures/pull
 
 require github.com/lib/pq v1.1.1
 
-require golang.org/x/image v0.23.0 // indirect
+require golang.org/x/image v0.23.0
